@@ -222,6 +222,16 @@ class Config(CIBaseModel):
 
 def deep_update(base: dict[str, Any], overlay: dict[str, Any]) -> dict[str, Any]:
     for key, value in overlay.items():
+        # Setting names are case-insensitive (see CIBaseModel), so an overlay
+        # key that differs from an existing key only in case is the same
+        # setting: update it in place. Otherwise both spellings survive the
+        # merge and which one wins depends on dictionary order rather than on
+        # the documented precedence (defaults < file < keyword arguments).
+        if key not in base:
+            for existing in base:
+                if existing.lower() == key.lower():
+                    key = existing
+                    break
         if key in base and isinstance(base[key], dict) and isinstance(value, dict):
             deep_update(base[key], value)
         else:
